@@ -184,10 +184,12 @@ def run_history(ad: Adapter, ops, res: Result):
     B, _ = ad.build()
     # one forward so that sampled coefficients / ranges exist; in training mode for half of the
     # models (the usual situation: export / summary / cost are called from inside a training loop)
+    # ... and for some models no forward at all (observers called on a freshly built wrapper)
     for m in (A, B):
         m.train(bool(ad.case.get('init_train', False)))
-        torch.manual_seed(999)
-        ng.call(m, ad.probe(seed=9))
+        if ad.case.get('init_forward', True):
+            torch.manual_seed(999)
+            ng.call(m, ad.probe(seed=9))
     base = snapshot(ad, A)
     last_export = None
     n_obs = 0
@@ -256,8 +258,9 @@ def run_history(ad: Adapter, ops, res: Result):
                 try:
                     C, _ = ad.build()
                     C.train(bool(ad.case.get('init_train', False)))
-                    torch.manual_seed(999)
-                    ng.call(C, ad.probe(seed=9))
+                    if ad.case.get('init_forward', True):
+                        torch.manual_seed(999)
+                        ng.call(C, ad.probe(seed=9))
                     for n, v in swapped.items():
                         if float(v) != float(C.get_cost(n)):
                             res.bad('swapped-cost-specification-not-in-effect', metric=n,
@@ -293,7 +296,7 @@ def pit_cases(draw):
             'full_cost': draw(st.booleans()), 'fold_bn': draw(st.booleans()),
             'discrete': draw(st.booleans()), 'wseed': draw(st.integers(0, 20)),
             'vseed': draw(st.integers(0, 20)), 'ops': draw(ops_strategy()),
-            'init_train': draw(st.booleans())}
+            'init_train': draw(st.booleans()), 'init_forward': draw(st.integers(0, 3)) > 0}
 
 
 @st.composite
@@ -302,7 +305,7 @@ def sn_cases(draw):
     return {'method': 'supernet', 'spec': spec, 'winners': draw(su.winners_for(spec)),
             'full_cost': draw(st.booleans()), 'wseed': draw(st.integers(0, 20)),
             'vseed': draw(st.integers(0, 20)), 'ops': draw(ops_strategy()),
-            'init_train': draw(st.booleans())}
+            'init_train': draw(st.booleans()), 'init_forward': draw(st.integers(0, 3)) > 0}
 
 
 @st.composite
@@ -314,7 +317,7 @@ def mps_cases(draw):
             'w_prec': draw(mu.precisions), 'a_prec': draw(mu.precisions),
             'full_cost': draw(st.booleans()), 'wseed': draw(st.integers(0, 20)),
             'vseed': draw(st.integers(0, 20)), 'ops': draw(ops_strategy()),
-            'init_train': draw(st.booleans())}
+            'init_train': draw(st.booleans()), 'init_forward': draw(st.integers(0, 3)) > 0}
 
 
 def oracle(case) -> Result:
@@ -377,9 +380,16 @@ FIXED = {
 }
 
 
+def _fixed_models():
+    yield from FIXED.items()
+    # the same MPS / SuperNet models observed before any forward pass, in eval mode
+    for name in ('mps', 'supernet'):
+        yield name + '-cold', dict(FIXED[name], init_train=False, init_forward=False)
+
+
 def enum_short(tier):
     L = 2 if tier == 'quick' else 3
-    for _name, base in FIXED.items():
+    for _name, base in _fixed_models():
         for n in range(1, L + 1):
             for seq in itertools.product(ALPHABET, repeat=n):
                 if not any(o in OBSERVERS for o in seq):
@@ -394,7 +404,7 @@ CHECK = Check(
              shards={'quick': 8, 'thorough': 16},
              exhaustive_note='ALL sequences of length <= 2 (thorough: <= 3) over the 12-letter '
                              'alphabet containing at least one observer, on one fixed model per '
-                             'method'),
+                             'method (MPS and SuperNet also before any forward pass)'),
         Part('pit', oracle, strategy=pit_cases(),
              budget={'quick': 60, 'thorough': 400}, shards={'quick': 1, 'thorough': 16}),
         Part('supernet', oracle, strategy=sn_cases(),
